@@ -16,7 +16,7 @@ the harness had not recorded — a disagreement about which call is made).
 -/
 import Driver.Util
 import CtyModel.Stdlib.Format
-open CtyModel CtyModel.Stdlib
+open CtyModel CtyModel.StdNum
 
 namespace HStdNum
 
